@@ -554,7 +554,8 @@ def _writer_shapes(tier):
                     d['KV_FREE'] = 4
                 out.append(dict(name='n%d_w%d_names%s_fmt%d_prot%d' % (n, w, ''.join(map(str, nl)), fmt, prot), defs=d, unwind=uw))
     # (a shape that writes MSF to a file with an 83-character name, so that the description line outgrows a shrunk line buffer and is
-    #  re-allocated, was built for seed C15_c: -DKV_LONGOUT -DKV_LINELEN=100; it exhausts 40 GB and is not registered)
+    #  re-allocated, was built for seed C15_c: -DKV_LONGOUT -DKV_LINELEN=100; it exhausts 40 GB and is not registered; that path is decided
+    #  by C15.msf_header_fit below, where snprintf is its contract instead of a text-producing stub)
     return out
 WRITER_SRCS = ['lib/src/msa_alloc.c', 'lib/src/msa_op.c', 'lib/src/msa_misc.c', 'lib/src/alphabet.c', 'lib/src/tlmisc.c']
 Q(id='C15.writers', props=['C15', 'C06', 'C01'], cls='B', harness='c15_writers.c', entry='h_c15_write', shapes=_writer_shapes,
@@ -566,11 +567,34 @@ Q(id='C15.writers', props=['C15', 'C06', 'C01'], cls='B', harness='c15_writers.c
   srcs=WRITER_SRCS, native_srcs=['lib/src/tldevel.c', 'lib/src/esl_stopwatch.c'] + WRITER_SRCS,
   trusted=[TRUST_MSG, 'stdio capture stubs (contracts/stubs_io.h): fprintf/snprintf for exactly the formats the writers use, fopen/fclose/time/localtime_r/strftime trivial',
            'qsort insertion-sort stub', 'realloc byte-copy stub', 'R3 capacity shrink (line table 1024 -> 24 lines: no growth of the line table occurs in these shapes, resize_line_buffer is not exercised; record growth 512 -> 2; minimal line buffer 256 -> 100 bytes in the *_longout shape only)'],
-  assumptions=[A_NOFAIL, A_WRAP, 'bounded: 2-3 rows, widths 1,3,60,61 (thorough 59,120,121), concrete names of 1-3 (10) characters over [A-Za-z0-9_.|-], row bytes symbolic from {-,A,c,N} (wide shapes: only the last 4 columns symbolic); output to stdout (outfile == NULL); the re-allocation path of an MSF description line longer than the line buffer is NOT exercised'])
+  assumptions=[A_NOFAIL, A_WRAP, 'bounded: 2-3 rows, widths 1,3,60,61 (thorough 59,120,121), concrete names of 1-3 (10) characters over [A-Za-z0-9_.|-], row bytes symbolic from {-,A,c,N} (wide shapes: only the last 4 columns symbolic); output to stdout (outfile == NULL); the re-allocation path of an MSF header line longer than the line buffer is not exercised here but in C15.msf_header_fit (snprintf by contract)'])
+def _msf_fit_shapes(tier):
+    # (over_desc, over_name): length the complete text needs, relative to the buffer the writer offers at its first attempt
+    # (negative: fits; 0: one byte short because of the terminator; positive: longer)
+    base = [(-100, -100), (0, -100), (40, -100), (-100, 0), (40, 40)]
+    if tier != 'quick':
+        base += [(1, 1), (-1, -1), (300, -100), (0, 0)]
+    out = []
+    for od, on in base:
+        for prot in (0, 1):
+            out.append(dict(name='desc%s_name%s_prot%d' % (('m%d' % -od) if od < 0 else ('p%d' % od), ('m%d' % -on) if on < 0 else ('p%d' % on), prot),
+                            defs=dict(KV_N=2, KV_W=2, KV_PROT=prot, KV_OVER_DESC='(%d)' % od, KV_OVER_NAME='(%d)' % on), unwind=70))
+    return out
+Q(id='C15.msf_header_fit', props=['C15', 'C05'], cls='B', harness='c15_msf_fit.c', entry='h_c15_msf_fit', shapes=_msf_fit_shapes,
+  mode='wrap', timeout=900, loops_files=['msa_alloc.shrink.loops', 'msa_io.shrink.loops', 'msa_io.lines.shrink.loops'], shrink=True,
+  defs=['-DKV_CAP=2', '-DKV_SEQCAP=2', '-DKV_LCAP=24', '-DKV_OUTMAX=1400'], object_bits=10,
+  unwindset={'kv_streq.0': 82, 'strnlen.0': 258, 'kv_fit_snprintf.0': 402, 'strlen.0': 100},
+  funcs=['write_msa_msf', 'alloc_line_buffer', 'free_line_buffer', 'sort_out_lines', 'GCGchecksum', 'GCGMultchecksum'],
+  srcs=WRITER_SRCS, native_srcs=['lib/src/tldevel.c', 'lib/src/esl_stopwatch.c'] + WRITER_SRCS,
+  trusted=[TRUST_MSG, 'snprintf replaced by its CONTRACT (writes at most `size` bytes into a buffer that must hold them, returns the length the complete text needs; that length is chosen by the harness relative to the offered buffer, so the file-name / row-name length is abstracted, not bounded)',
+           'fprintf no-op, fopen/fclose/time/localtime_r/strftime trivial', 'qsort insertion-sort stub', 'realloc: fresh block, contents carried over only for blocks <= 48 bytes (over-approximation for line buffers)',
+           'R3 capacity shrink (line table 1024 -> 24 lines, record growth 512 -> 2)'],
+  assumptions=[A_NOFAIL, A_WRAP, 'bounded in the row count (2 rows of 2 columns); complete in the length of the description / Name: text up to the case split fits / exactly one byte short / longer (5 quick, 9 thorough combinations, both molecule types)'])
 PROPS['C15'] = dict(
     level='other',
     level_text=('the three writers are run on symbolic finalised alignments with stdio captured; the captured bytes are checked against the format rules of the property (60-column wrapping, header lines, blocks with every sequence once, in order) '
-                'and the structured MSF header values (declared length, per-row and total GCG checksums, molecule type) against an independent checksum and the kind of sequence'),
+                'and the structured MSF header values (declared length, per-row and total GCG checksums, molecule type) against an independent checksum and the kind of sequence; '
+                'C15.msf_header_fit: with snprintf replaced by its contract, every MSF header line that does not fit its line buffer (long file name, long row names) is re-allocated and printed again complete, inside its buffer'),
     level_note='bounded (2-3 rows, widths around the 60-column boundary); stdio replaced by capture stubs; file output path (fopen) not exercised; capacity-shrunk line table',
     technique=T_CB + ' (harness-enforced), bounded unwinding, stdio capture stubs; native replay',
     explanation=EXPL_COMMON)
